@@ -1,0 +1,1140 @@
+//! Verification harness (only built with `--cfg cargo_vet_verif`).
+//!
+//! Reads cases (JSON lines) from `$VERIF_CASES`, runs the *real* cargo-vet code on
+//! each under `catch_unwind`, and writes one JSON observation per case to
+//! `$VERIF_OUT`.  Next to the observation it emits the "interned" model input
+//! (names, versions, criteria and dates replaced by ranks computed with the real
+//! `Ord`/matching code) from which /verif builds the Coq model's input.
+//!
+//! Nothing here changes cargo-vet's behaviour; the file is add-only.
+
+use std::collections::{BTreeMap, BTreeSet};
+use std::panic::{catch_unwind, AssertUnwindSafe};
+
+use cargo_metadata::Metadata;
+use serde_json::{json, Value};
+
+use crate::criteria::CriteriaMapper;
+use crate::format::{
+    AuditEntry, AuditKind, AuditsFile, ConfigFile, CratesPublisher, ExemptedDependency,
+    ImportsFile, SortedMap, TrustEntry, UnpublishedEntry, VetVersion, WildcardEntry,
+};
+use crate::network::Network;
+use crate::resolver::{
+    self, Conclusion, DeltaEdgeOrigin, ResolveReport, SearchMode, UpdateMode, ViolationConflict,
+};
+use crate::storage::Store;
+use crate::{Config, PackageExt};
+
+use super::{mock_cfg, mock_today, MockRegistryBuilder};
+
+// ---------------------------------------------------------------------------
+// JSON helpers for the Coq-term convention used by /verif/tools (see
+// tools/coqterm.py): ints are N, {"_nat":n}, {"_z":n}, {"_c":ctor,"a":[..]},
+// {"_pair":[a,b]}, null/{"_some":x} for options, lists, booleans.
+fn c(ctor: &str, args: Vec<Value>) -> Value {
+    json!({ "_c": ctor, "a": args })
+}
+fn nat(n: usize) -> Value {
+    json!({ "_nat": n })
+}
+fn z(n: i64) -> Value {
+    json!({ "_z": n })
+}
+fn pair(a: Value, b: Value) -> Value {
+    json!({ "_pair": [a, b] })
+}
+fn some(v: Value) -> Value {
+    json!({ "_some": v })
+}
+fn opt(v: Option<Value>) -> Value {
+    match v {
+        Some(v) => some(v),
+        None => Value::Null,
+    }
+}
+
+// ---------------------------------------------------------------------------
+// Metadata construction from the case's graph description.
+
+fn source_of(pkg: &Value) -> Value {
+    match pkg["source"].as_str().unwrap_or("registry") {
+        "path" => Value::Null,
+        "registry" => json!("registry+https://github.com/rust-lang/crates.io-index"),
+        s if s.starts_with("git:") => json!(format!(
+            "git+https://github.com/owner/{}#{}",
+            pkg["name"].as_str().unwrap(),
+            &s[4..]
+        )),
+        other => json!(other),
+    }
+}
+
+fn pkgid_of(pkg: &Value) -> String {
+    let name = pkg["name"].as_str().unwrap();
+    let version = pkg["version"].as_str().unwrap();
+    match pkg["source"].as_str().unwrap_or("registry") {
+        "path" => format!("{name} {version} (path+file:///C:/FAKE/{name})"),
+        "registry" => {
+            format!("{name} {version} (registry+https://github.com/rust-lang/crates.io-index)")
+        }
+        s if s.starts_with("git:") => format!(
+            "{name} {version} (git+https://github.com/owner/{name}#{})",
+            &s[4..]
+        ),
+        other => format!("{name} {version} ({other})"),
+    }
+}
+
+fn find_pkg<'a>(pkgs: &'a [Value], name: &str, version: &str, source: Option<&str>) -> &'a Value {
+    pkgs.iter()
+        .find(|p| {
+            p["name"] == name
+                && p["version"] == version
+                && source.map_or(true, |s| p["source"].as_str().unwrap_or("registry") == s)
+        })
+        .unwrap_or_else(|| panic!("harness: dependency {name} {version} not in graph"))
+}
+
+fn build_metadata(graph: &Value) -> Metadata {
+    let pkgs = graph["packages"].as_array().unwrap();
+    let dep_target = |d: &Value| -> &Value {
+        find_pkg(
+            pkgs,
+            d["name"].as_str().unwrap(),
+            d["version"].as_str().unwrap(),
+            d["source"].as_str(),
+        )
+    };
+    let meta_json = json!({
+        "packages": pkgs.iter().map(|p| json!({
+            "name": p["name"],
+            "version": p["version"],
+            "id": pkgid_of(p),
+            "license": "MIT",
+            "license_file": null,
+            "description": p.get("description").cloned().unwrap_or(json!("whatever")),
+            "source": source_of(p),
+            "dependencies": p["deps"].as_array().unwrap().iter().map(|d| json!({
+                "name": d["name"],
+                "source": source_of(dep_target(d)),
+                "req": format!("={}", d["version"].as_str().unwrap()),
+                "kind": null,
+                "rename": null,
+                "optional": false,
+                "uses_default_features": true,
+                "features": [],
+                "target": null,
+                "registry": null
+            })).collect::<Vec<_>>(),
+            "targets": [{
+                "kind": ["lib"], "crate_types": ["lib"], "name": p["name"],
+                "src_path": "C:\\FAKE\\src\\lib.rs", "edition": "2015",
+                "doc": true, "doctest": true, "test": true
+            }],
+            "features": {},
+            "manifest_path": "C:\\FAKE\\Cargo.toml",
+            "metadata": null,
+            "publish": null,
+            "authors": [],
+            "categories": [],
+            "keywords": [],
+            "readme": "README.md",
+            "repository": p.get("repository").cloned().unwrap_or(Value::Null),
+            "homepage": null,
+            "documentation": null,
+            "edition": "2015",
+            "links": null,
+            "default_run": null,
+            "rust_version": null
+        })).collect::<Vec<_>>(),
+        "workspace_members": pkgs.iter().filter(|p| p["workspace"] == true).map(pkgid_of).collect::<Vec<_>>(),
+        "resolve": {
+            "nodes": pkgs.iter().map(|p| {
+                let deps = p["deps"].as_array().unwrap();
+                json!({
+                    "id": pkgid_of(p),
+                    "dependencies": deps.iter().map(|d| pkgid_of(dep_target(d))).collect::<Vec<_>>(),
+                    "deps": deps.iter().map(|d| json!({
+                        "name": d["name"],
+                        "pkg": pkgid_of(dep_target(d)),
+                        "dep_kinds": d["kinds"].as_array().unwrap().iter().map(|k| json!({
+                            "kind": if k == "normal" { Value::Null } else { k.clone() },
+                            "target": null,
+                        })).collect::<Vec<_>>(),
+                    })).collect::<Vec<_>>(),
+                })
+            }).collect::<Vec<_>>(),
+            "root": null,
+        },
+        "target_directory": "C:\\FAKE\\target",
+        "version": 1,
+        "workspace_root": "C:\\FAKE\\",
+        "metadata": null,
+    });
+    serde_json::from_value(meta_json).expect("harness: metadata json")
+}
+
+// ---------------------------------------------------------------------------
+// Interning tables.
+
+struct Interner {
+    names: Vec<String>,
+    versions: Vec<VetVersion>,
+    criteria: Vec<String>,
+}
+
+const UNKNOWN: u64 = 9999;
+
+impl Interner {
+    fn name(&self, n: &str) -> u64 {
+        self.names
+            .binary_search_by(|x| x.as_str().cmp(n))
+            .map(|i| i as u64)
+            .unwrap_or(UNKNOWN)
+    }
+    fn ver(&self, v: &VetVersion) -> u64 {
+        self.versions
+            .binary_search(v)
+            .map(|i| i as u64)
+            .unwrap_or_else(|_| panic!("harness: version {v} not in universe"))
+    }
+    fn crit(&self, n: &str) -> u64 {
+        self.criteria
+            .iter()
+            .position(|x| x == n)
+            .map(|i| i as u64)
+            .unwrap_or(UNKNOWN)
+    }
+    fn crits<'a, S: AsRef<str> + 'a>(&self, l: impl IntoIterator<Item = &'a S>) -> Value {
+        Value::Array(l.into_iter().map(|s| json!(self.crit(s.as_ref()))).collect())
+    }
+    fn sver(&self, v: Option<&VetVersion>) -> String {
+        match v {
+            None => "n".to_owned(),
+            Some(v) => self.ver(v).to_string(),
+        }
+    }
+}
+
+fn day(d: chrono::NaiveDate) -> i64 {
+    use chrono::Datelike;
+    d.num_days_from_ce() as i64
+}
+
+fn collect_audit_versions(vs: &mut BTreeSet<VetVersion>, file: &AuditsFile) {
+    for a in file.audits.values().flatten() {
+        match &a.kind {
+            AuditKind::Full { version } => {
+                vs.insert(version.clone());
+            }
+            AuditKind::Delta { from, to } => {
+                vs.insert(from.clone());
+                vs.insert(to.clone());
+            }
+            AuditKind::Violation { .. } => {}
+        }
+    }
+}
+
+fn collect_import_versions(vs: &mut BTreeSet<VetVersion>, imports: &ImportsFile) {
+    for f in imports.audits.values() {
+        collect_audit_versions(vs, f);
+    }
+    for p in imports.publisher.values().flatten() {
+        vs.insert(p.version.clone());
+    }
+    for u in imports.unpublished.values().flatten() {
+        vs.insert(u.version.clone());
+        vs.insert(u.audited_as.clone());
+    }
+}
+
+fn make_interner(metadata: &Metadata, store: &Store, extra_versions: &[VetVersion]) -> Interner {
+    let mut names = BTreeSet::new();
+    let mut vs = BTreeSet::new();
+    for p in &metadata.packages {
+        names.insert(p.name.clone());
+        vs.insert(p.vet_version());
+    }
+    fn add_file(names: &mut BTreeSet<String>, f: &AuditsFile) {
+        names.extend(f.audits.keys().cloned());
+        names.extend(f.wildcard_audits.keys().cloned());
+        names.extend(f.trusted.keys().cloned());
+    }
+    add_file(&mut names, &store.audits);
+    for f in store.imports.audits.values() {
+        add_file(&mut names, f);
+    }
+    names.extend(store.imports.publisher.keys().cloned());
+    names.extend(store.imports.unpublished.keys().cloned());
+    if let Some(live) = &store.live_imports {
+        for f in live.audits.values() {
+            add_file(&mut names, f);
+        }
+        names.extend(live.publisher.keys().cloned());
+        names.extend(live.unpublished.keys().cloned());
+        collect_import_versions(&mut vs, live);
+    }
+    names.extend(store.config.exemptions.keys().cloned());
+    collect_audit_versions(&mut vs, &store.audits);
+    collect_import_versions(&mut vs, &store.imports);
+    for e in store.config.exemptions.values().flatten() {
+        vs.insert(e.version.clone());
+    }
+    vs.extend(extra_versions.iter().cloned());
+    let criteria = [
+        crate::format::SAFE_TO_RUN.to_owned(),
+        crate::format::SAFE_TO_DEPLOY.to_owned(),
+    ]
+    .into_iter()
+    .chain(store.audits.criteria.keys().cloned())
+    .collect();
+    Interner {
+        names: names.into_iter().collect(),
+        versions: vs.into_iter().collect(),
+        criteria,
+    }
+}
+
+// ---------------------------------------------------------------------------
+// Model input emission (mirrors the records of /verif/coq/{AuditGraph,DepGraph,Resolve}.v)
+
+fn m_audit(it: &Interner, a: &AuditEntry) -> Value {
+    let kind = match &a.kind {
+        AuditKind::Full { version } => c("KFull", vec![json!(it.ver(version))]),
+        AuditKind::Delta { from, to } => {
+            c("KDelta", vec![json!(it.ver(from)), json!(it.ver(to))])
+        }
+        AuditKind::Violation { violation } => c(
+            "KViolation",
+            vec![Value::Array(
+                it.versions
+                    .iter()
+                    .enumerate()
+                    .filter(|(_, v)| violation.matches(v))
+                    .map(|(i, _)| json!(i))
+                    .collect(),
+            )],
+        ),
+    };
+    c(
+        "Build_audit",
+        vec![
+            kind,
+            it.crits(&a.criteria),
+            json!(a.importable),
+            json!(a.is_fresh_import),
+        ],
+    )
+}
+fn m_wildcard(it: &Interner, w: &WildcardEntry) -> Value {
+    c(
+        "Build_wildcard",
+        vec![
+            json!(w.user_id),
+            z(day(*w.start)),
+            z(day(*w.end)),
+            it.crits(&w.criteria),
+            json!(w.is_fresh_import),
+        ],
+    )
+}
+fn m_trusted(it: &Interner, t: &TrustEntry) -> Value {
+    c(
+        "Build_trusted",
+        vec![
+            json!(t.user_id),
+            z(day(*t.start)),
+            z(day(*t.end)),
+            it.crits(&t.criteria),
+        ],
+    )
+}
+fn m_publisher(it: &Interner, p: &CratesPublisher) -> Value {
+    c(
+        "Build_publisher",
+        vec![
+            json!(it.ver(&p.version)),
+            json!(p.user_id),
+            z(day(p.when)),
+            json!(p.is_fresh_import),
+        ],
+    )
+}
+fn m_unpublished(it: &Interner, u: &UnpublishedEntry) -> Value {
+    c(
+        "Build_unpublished",
+        vec![
+            json!(it.ver(&u.version)),
+            json!(it.ver(&u.audited_as)),
+            json!(u.is_fresh_import),
+            json!(u.still_unpublished),
+        ],
+    )
+}
+fn m_exemption(it: &Interner, e: &ExemptedDependency) -> Value {
+    c(
+        "Build_exemption",
+        vec![json!(it.ver(&e.version)), it.crits(&e.criteria), json!(e.suggest)],
+    )
+}
+
+fn list<T>(l: Option<&Vec<T>>, f: impl Fn(&T) -> Value) -> Value {
+    Value::Array(l.map(|v| v.iter().map(f).collect()).unwrap_or_default())
+}
+
+fn m_pkg_store(it: &Interner, store: &Store, name: &str) -> Value {
+    c(
+        "Build_pkg_store",
+        vec![
+            Value::Array(
+                store
+                    .imported_audits()
+                    .values()
+                    .map(|f| list(f.audits.get(name), |a| m_audit(it, a)))
+                    .collect(),
+            ),
+            list(store.audits.audits.get(name), |a| m_audit(it, a)),
+            Value::Array(
+                store
+                    .imported_audits()
+                    .values()
+                    .map(|f| list(f.wildcard_audits.get(name), |w| m_wildcard(it, w)))
+                    .collect(),
+            ),
+            list(store.audits.wildcard_audits.get(name), |w| m_wildcard(it, w)),
+            list(store.audits.trusted.get(name), |t| m_trusted(it, t)),
+            list(store.publishers().get(name), |p| m_publisher(it, p)),
+            list(store.unpublished().get(name), |u| m_unpublished(it, u)),
+            list(store.config.exemptions.get(name), |e| m_exemption(it, e)),
+        ],
+    )
+}
+
+fn m_ctable(it: &Interner, store: &Store) -> Value {
+    Value::Array(
+        store
+            .audits
+            .criteria
+            .values()
+            .map(|e| it.crits(&e.implies))
+            .collect(),
+    )
+}
+
+fn m_store(it: &Interner, store: &Store) -> Value {
+    c(
+        "Build_store",
+        vec![
+            m_ctable(it, store),
+            Value::Array(
+                it.names
+                    .iter()
+                    .enumerate()
+                    .map(|(i, n)| pair(json!(i), m_pkg_store(it, store, n)))
+                    .collect(),
+            ),
+        ],
+    )
+}
+
+/// The dependency graph in the PackageIdx numbering of the real `DepGraph`
+/// (nodes sorted by the real `Ord`), with raw resolve-node dependency lists.
+fn m_depgraph_in(
+    it: &Interner,
+    metadata: &Metadata,
+    store: &Store,
+    graph: &resolver::DepGraph<'_>,
+) -> Value {
+    let resolve = metadata.resolve.as_ref().unwrap();
+    let pkgs: Vec<Value> = graph
+        .nodes
+        .iter()
+        .map(|node| {
+            let rnode = resolve
+                .nodes
+                .iter()
+                .find(|n| &n.id == node.package_id)
+                .unwrap();
+            let deps: Vec<Value> = rnode
+                .deps
+                .iter()
+                .map(|d| {
+                    let has = |k: cargo_metadata::DependencyKind| {
+                        d.dep_kinds.iter().any(|dk| dk.kind == k)
+                    };
+                    c(
+                        "Build_dep",
+                        vec![
+                            nat(graph.interner_by_pkgid[&d.pkg]),
+                            json!(has(cargo_metadata::DependencyKind::Normal)),
+                            json!(has(cargo_metadata::DependencyKind::Build)),
+                            json!(has(cargo_metadata::DependencyKind::Development)),
+                        ],
+                    )
+                })
+                .collect();
+            let policy = store.config.policy.get(node.name, &node.version).map(|p| {
+                c(
+                    "Build_policy",
+                    vec![
+                        opt(p.criteria.as_ref().map(|l| it.crits(l))),
+                        opt(p.dev_criteria.as_ref().map(|l| it.crits(l))),
+                        Value::Array(
+                            p.dependency_criteria
+                                .iter()
+                                .map(|(n, l)| pair(json!(it.name(n)), it.crits(l)))
+                                .collect(),
+                        ),
+                    ],
+                )
+            });
+            c(
+                "Build_pkg",
+                vec![
+                    json!(it.name(node.name)),
+                    json!(it.ver(&node.version)),
+                    json!(node.is_third_party),
+                    Value::Array(deps),
+                    opt(policy),
+                ],
+            )
+        })
+        .collect();
+    let members: Vec<Value> = metadata
+        .workspace_members
+        .iter()
+        .map(|id| nat(graph.interner_by_pkgid[id]))
+        .collect();
+    c(
+        "Build_depgraph_in",
+        vec![Value::Array(pkgs), Value::Array(members)],
+    )
+}
+
+// ---------------------------------------------------------------------------
+// Observation rendering (mirrors /verif/coq/Show.v)
+
+fn sp(tag: &str, items: Vec<String>) -> String {
+    if items.is_empty() {
+        format!("({tag})")
+    } else {
+        format!("({tag} {})", items.join(" "))
+    }
+}
+fn sb(b: bool) -> String {
+    if b { "1" } else { "0" }.to_owned()
+}
+fn sopt(v: Option<usize>) -> String {
+    v.map(|x| x.to_string()).unwrap_or_else(|| "-".to_owned())
+}
+
+fn s_origin(it: &Interner, o: &DeltaEdgeOrigin) -> String {
+    match o {
+        DeltaEdgeOrigin::StoredLocalAudit {
+            audit_index,
+            importable,
+        } => sp("L", vec![audit_index.to_string(), sb(*importable)]),
+        DeltaEdgeOrigin::ImportedAudit {
+            import_index,
+            audit_index,
+        } => sp("I", vec![import_index.to_string(), audit_index.to_string()]),
+        DeltaEdgeOrigin::WildcardAudit {
+            import_index,
+            audit_index,
+            publisher_index,
+        } => sp(
+            "W",
+            vec![
+                sopt(*import_index),
+                audit_index.to_string(),
+                publisher_index.to_string(),
+            ],
+        ),
+        DeltaEdgeOrigin::Trusted { publisher_index } => sp("T", vec![publisher_index.to_string()]),
+        DeltaEdgeOrigin::Exemption { exemption_index } => sp("X", vec![exemption_index.to_string()]),
+        DeltaEdgeOrigin::Unpublished { unpublished_index } => {
+            sp("U", vec![unpublished_index.to_string()])
+        }
+        DeltaEdgeOrigin::FreshExemption { version } => sp("F", vec![it.ver(version).to_string()]),
+    }
+}
+
+fn s_search(
+    it: &Interner,
+    r: &Result<Vec<DeltaEdgeOrigin>, resolver::SearchFailure>,
+) -> String {
+    match r {
+        Ok(path) => sp("ok", path.iter().map(|o| s_origin(it, o)).collect()),
+        Err(f) => sp(
+            "err",
+            vec![
+                sp(
+                    "root",
+                    f.reachable_from_root
+                        .iter()
+                        .map(|v| it.sver(v.as_ref()))
+                        .collect(),
+                ),
+                sp(
+                    "target",
+                    f.reachable_from_target
+                        .iter()
+                        .map(|v| it.sver(v.as_ref()))
+                        .collect(),
+                ),
+            ],
+        ),
+    }
+}
+
+fn import_index(store: &Store, name: &Option<String>) -> Option<usize> {
+    name.as_ref().map(|n| {
+        store
+            .imported_audits()
+            .keys()
+            .position(|k| k == n)
+            .expect("harness: unknown import in conflict")
+    })
+}
+
+fn audit_index(store: &Store, src: &Option<String>, pkg: &str, entry: &AuditEntry) -> usize {
+    let file = match src {
+        Some(n) => &store.imported_audits()[n],
+        None => &store.audits,
+    };
+    file.audits[pkg]
+        .iter()
+        .position(|e| e == entry)
+        .expect("harness: conflict entry not found")
+}
+
+fn s_conflict(store: &Store, pkg: &str, cf: &ViolationConflict) -> String {
+    match cf {
+        ViolationConflict::UnauditedConflict {
+            violation_source,
+            violation,
+            exemptions,
+        } => sp(
+            "unaudited",
+            vec![
+                sopt(import_index(store, violation_source)),
+                audit_index(store, violation_source, pkg, violation).to_string(),
+                store.config.exemptions[pkg]
+                    .iter()
+                    .position(|e| e == exemptions)
+                    .unwrap()
+                    .to_string(),
+            ],
+        ),
+        ViolationConflict::AuditConflict {
+            violation_source,
+            violation,
+            audit_source,
+            audit,
+        } => sp(
+            "audit",
+            vec![
+                sopt(import_index(store, violation_source)),
+                audit_index(store, violation_source, pkg, violation).to_string(),
+                sopt(import_index(store, audit_source)),
+                audit_index(store, audit_source, pkg, audit).to_string(),
+            ],
+        ),
+    }
+}
+
+fn bits(s: &crate::criteria::CriteriaSet) -> u128 {
+    s.indices().fold(0u128, |acc, i| acc | (1u128 << i))
+}
+
+fn s_report(it: &Interner, store: &Store, report: &ResolveReport<'_>, reqs: &[u128]) -> String {
+    let g = &report.graph;
+    let flags = |f: &dyn Fn(&resolver::PackageNode) -> bool| -> Vec<String> {
+        g.nodes
+            .iter()
+            .enumerate()
+            .filter(|(_, n)| f(n))
+            .map(|(i, _)| i.to_string())
+            .collect()
+    };
+    let idxs = |l: &Vec<usize>| l.iter().map(|i| i.to_string()).collect::<Vec<_>>();
+    let concl = match &report.conclusion {
+        Conclusion::Success(s) => sp(
+            "success",
+            vec![
+                sp("exempted", idxs(&s.vetted_with_exemptions)),
+                sp("partial", idxs(&s.vetted_partially)),
+                sp("full", idxs(&s.vetted_fully)),
+            ],
+        ),
+        Conclusion::FailForViolationConflict(f) => sp(
+            "violation",
+            f.violations
+                .iter()
+                .map(|(i, cs)| {
+                    let mut v = vec![i.to_string()];
+                    v.extend(cs.iter().map(|cf| s_conflict(store, g.nodes[*i].name, cf)));
+                    sp("pkg", v)
+                })
+                .collect(),
+        ),
+        Conclusion::FailForVet(f) => sp(
+            "failvet",
+            f.failures
+                .iter()
+                .map(|(i, af)| sp("f", vec![i.to_string(), bits(&af.criteria_failures).to_string()]))
+                .collect(),
+        ),
+    };
+    let results = report
+        .results
+        .iter()
+        .enumerate()
+        .map(|(i, r)| match r {
+            None => {
+                if g.nodes[i].is_third_party {
+                    "(viol)".to_owned()
+                } else {
+                    "(fp)".to_owned()
+                }
+            }
+            Some(r) => sp("s", r.search_results.iter().map(|x| s_search(it, x)).collect()),
+        })
+        .collect();
+    sp(
+        "report",
+        vec![
+            sp("topo", g.topo_index.iter().map(|i| i.to_string()).collect()),
+            sp("roots", flags(&|n| n.is_root)),
+            sp("devonly", flags(&|n| n.is_dev_only)),
+            sp("reqs", reqs.iter().map(|b| b.to_string()).collect()),
+            sp("concl", vec![concl]),
+            sp("results", results),
+        ],
+    )
+}
+
+// ---------------------------------------------------------------------------
+// Store acquisition for a case.
+
+fn build_network(case: &Value) -> Network {
+    let mut network = Network::new_mock();
+    if let Some(peers) = case.get("peers").and_then(|p| p.as_object()) {
+        for (url, text) in peers {
+            network.mock_serve(url, text.as_str().unwrap());
+        }
+    }
+    if let Some(reg) = case.get("registry") {
+        let mut b = MockRegistryBuilder::new();
+        for u in reg["users"].as_array().into_iter().flatten() {
+            b.user(
+                u[0].as_u64().unwrap(),
+                u[1].as_str().unwrap(),
+                u[2].as_str().unwrap(),
+            );
+        }
+        for (name, versions) in reg["packages"].as_object().into_iter().flatten() {
+            let vs: Vec<_> = versions
+                .as_array()
+                .unwrap()
+                .iter()
+                .map(|v| super::MockRegistryVersion {
+                    version: v["version"].as_str().unwrap().parse().unwrap(),
+                    published_by: v["by"].as_u64(),
+                    created_at: chrono::DateTime::from_utc(
+                        chrono::NaiveDateTime::new(
+                            v["when"].as_str().unwrap().parse().unwrap(),
+                            chrono::NaiveTime::from_hms_opt(12, 0, 0).unwrap(),
+                        ),
+                        chrono::Utc,
+                    ),
+                })
+                .collect();
+            let meta = crate::format::CratesAPICrateMetadata {
+                description: versions
+                    .as_array()
+                    .and_then(|_| reg["meta"][name]["description"].as_str())
+                    .map(|s| s.to_owned()),
+                repository: reg["meta"][name]["repository"].as_str().map(|s| s.to_owned()),
+            };
+            b.package_m(name, meta, &vs);
+        }
+        b.serve(&mut network);
+    }
+    network
+}
+
+enum Acquired {
+    Store(Box<Store>),
+    Refused(String),
+}
+
+fn acquire(case: &Value, cfg: &Config) -> Acquired {
+    let st = &case["store"];
+    let locked = case["mode"].as_str().unwrap_or("locked") == "locked";
+    let parsed = Store::mock_acquire(
+        st["config"].as_str().unwrap(),
+        st["audits"].as_str().unwrap(),
+        st["imports"].as_str().unwrap(),
+        mock_today(),
+        case["check_format"].as_bool().unwrap_or(false),
+    );
+    let store = match parsed {
+        Ok(s) => s,
+        Err(e) => return Acquired::Refused(format!("{e:?}")),
+    };
+    if locked {
+        return Acquired::Store(Box::new(store));
+    }
+    let network = build_network(case);
+    let Store {
+        config,
+        audits,
+        imports,
+        ..
+    } = store;
+    match Store::mock_online(
+        cfg,
+        config,
+        audits,
+        imports,
+        &network,
+        case["allow_criteria_changes"].as_bool().unwrap_or(true),
+    ) {
+        Ok(s) => Acquired::Store(Box::new(s)),
+        Err(e) => Acquired::Refused(format!("{e:?}")),
+    }
+}
+
+fn error_kind(dbg: &str) -> String {
+    // small enum of refusal classes, by the error type names that appear
+    for k in [
+        "InvalidCriteria",
+        "BadWildcardEndDate",
+        "BadFormat",
+        "ImportsLockOutdated",
+        "TomlParse",
+        "TomlError",
+        "CriteriaChange",
+        "FetchAuditError",
+        "Aggregate",
+        "MissingCriteriaDescription",
+        "CrateInfo",
+        "Download",
+    ] {
+        if dbg.contains(k) {
+            return k.to_owned();
+        }
+    }
+    "Other".to_owned()
+}
+
+// ---------------------------------------------------------------------------
+// Case kinds.
+
+fn parse_mode(v: &Value) -> UpdateMode {
+    UpdateMode {
+        search_mode: match v["search"].as_str().unwrap() {
+            "PreferExemptions" => SearchMode::PreferExemptions,
+            "PreferFreshImports" => SearchMode::PreferFreshImports,
+            "RegenerateExemptions" => SearchMode::RegenerateExemptions,
+            o => panic!("harness: bad search mode {o}"),
+        },
+        prune_exemptions: v["prune_exemptions"].as_bool().unwrap(),
+        prune_non_importable_audits: v["prune_audits"].as_bool().unwrap(),
+        prune_imports: v["prune_imports"].as_bool().unwrap(),
+    }
+}
+
+fn run_resolve(case: &Value) -> Value {
+    let metadata = build_metadata(&case["graph"]);
+    let cfg = mock_cfg(&metadata);
+    let store = match acquire(case, &cfg) {
+        Acquired::Store(s) => s,
+        Acquired::Refused(e) => {
+            return json!({"status": "refused", "error_kind": error_kind(&e), "error": e})
+        }
+    };
+    let it = make_interner(&metadata, &store, &[]);
+
+    // Model input is emitted from the DepGraph the real code builds (its node
+    // numbering), before the resolver runs.
+    let graph = resolver::DepGraph::new(&metadata, None, Some(&store.config.policy));
+    let model_in = json!({
+        "graph": m_depgraph_in(&it, &metadata, &store, &graph),
+        "store": m_store(&it, &store),
+    });
+    let tables = json!({
+        "names": it.names,
+        "versions": it.versions.iter().map(|v| v.to_string()).collect::<Vec<_>>(),
+        "criteria": it.criteria,
+        "imports": store.imported_audits().keys().collect::<Vec<_>>(),
+        "nodes": graph.nodes.iter().map(|n| format!("{}:{}", n.name, n.version)).collect::<Vec<_>>(),
+    });
+
+    let run = catch_unwind(AssertUnwindSafe(|| {
+        let mapper = CriteriaMapper::new(&store.audits.criteria);
+        let reqs: Vec<u128> =
+            resolver::verif_resolve_requirements(&graph, &store.config.policy, &mapper)
+                .iter()
+                .map(bits)
+                .collect();
+        let report = resolver::resolve(&metadata, None, &store);
+        let obs = s_report(&it, &store, &report, &reqs);
+        let mut extra = serde_json::Map::new();
+        // JSON report as the user sees it
+        let out = super::BasicTestOutput::new();
+        report.print_json(&out.clone().as_dyn(), None).unwrap();
+        extra.insert(
+            "json_report".to_owned(),
+            serde_json::from_str(&out.to_string()).unwrap_or(Value::Null),
+        );
+        let human = super::BasicTestOutput::new();
+        report
+            .print_human(&human.clone().as_dyn(), &cfg, None)
+            .unwrap();
+        extra.insert("human_report".to_owned(), json!(human.to_string()));
+        extra.insert("has_errors".to_owned(), json!(report.has_errors()));
+        // criteria facts
+        extra.insert(
+            "implied".to_owned(),
+            json!(mapper
+                .all_criteria_iter()
+                .map(|s| bits(s).to_string())
+                .collect::<Vec<_>>()),
+        );
+        // optional store updates for the requested modes
+        let mut updates = Vec::new();
+        for m in case["updates"].as_array().into_iter().flatten() {
+            let mode = parse_mode(m);
+            let target = m["target"].as_str().map(|s| s.to_owned());
+            let other = m.get("other").map(parse_mode);
+            let up = resolver::get_store_updates(&cfg, &store, |name| match (&target, &other) {
+                (Some(t), Some(o)) if name != t => *o,
+                _ => mode,
+            });
+            updates.push(s_updates(&it, &store, &up));
+        }
+        extra.insert("updates".to_owned(), json!(updates));
+        (obs, extra)
+    }));
+    match run {
+        Ok((obs, extra)) => {
+            json!({"status": "ok", "model_input": model_in, "tables": tables, "obs": obs, "extra": extra})
+        }
+        Err(p) => {
+            json!({"status": "panic", "model_input": model_in, "tables": tables, "panic": panic_message(&p)})
+        }
+    }
+}
+
+fn s_audit(it: &Interner, a: &AuditEntry) -> String {
+    let kind = match &a.kind {
+        AuditKind::Full { version } => sp("full", vec![it.ver(version).to_string()]),
+        AuditKind::Delta { from, to } => {
+            sp("delta", vec![it.ver(from).to_string(), it.ver(to).to_string()])
+        }
+        AuditKind::Violation { violation } => sp(
+            "violation",
+            it.versions
+                .iter()
+                .enumerate()
+                .filter(|(_, v)| violation.matches(v))
+                .map(|(i, _)| i.to_string())
+                .collect(),
+        ),
+    };
+    sp(
+        "a",
+        vec![
+            kind,
+            sp(
+                "c",
+                a.criteria.iter().map(|c| it.crit(c).to_string()).collect(),
+            ),
+            sb(a.importable),
+            sb(a.is_fresh_import),
+        ],
+    )
+}
+
+fn s_updates(it: &Interner, store: &Store, up: &resolver::StoreUpdates) -> String {
+    let names = |k: &str| it.name(k).to_string();
+    let audits: Vec<String> = up
+        .audits
+        .iter()
+        .map(|(k, l)| {
+            let mut v = vec![names(k)];
+            v.extend(l.iter().map(|a| s_audit(it, a)));
+            sp("p", v)
+        })
+        .collect();
+    let exemptions: Vec<String> = up
+        .exemptions
+        .iter()
+        .map(|(k, l)| {
+            let mut v = vec![names(k)];
+            v.extend(l.iter().map(|e| {
+                sp(
+                    "x",
+                    vec![
+                        it.ver(&e.version).to_string(),
+                        sp(
+                            "c",
+                            e.criteria.iter().map(|c| it.crit(c).to_string()).collect(),
+                        ),
+                        sb(e.suggest),
+                    ],
+                )
+            }));
+            sp("p", v)
+        })
+        .collect();
+    let imp_audits: Vec<String> = up
+        .imports
+        .audits
+        .iter()
+        .map(|(iname, f)| {
+            let idx = store
+                .imported_audits()
+                .keys()
+                .position(|k| k == iname)
+                .unwrap();
+            let a: Vec<String> = f
+                .audits
+                .iter()
+                .map(|(k, l)| {
+                    let mut v = vec![names(k)];
+                    v.extend(l.iter().map(|a| s_audit(it, a)));
+                    sp("p", v)
+                })
+                .collect();
+            let w: Vec<String> = f
+                .wildcard_audits
+                .iter()
+                .map(|(k, l)| {
+                    let mut v = vec![names(k)];
+                    v.extend(l.iter().map(|w| {
+                        sp(
+                            "w",
+                            vec![
+                                w.user_id.to_string(),
+                                day(*w.start).to_string(),
+                                day(*w.end).to_string(),
+                                sp(
+                                    "c",
+                                    w.criteria.iter().map(|c| it.crit(c).to_string()).collect(),
+                                ),
+                            ],
+                        )
+                    }));
+                    sp("p", v)
+                })
+                .collect();
+            sp(
+                "import",
+                vec![idx.to_string(), sp("audits", a), sp("wildcards", w)],
+            )
+        })
+        .collect();
+    let publisher: Vec<String> = up
+        .imports
+        .publisher
+        .iter()
+        .map(|(k, l)| {
+            let mut v = vec![names(k)];
+            v.extend(l.iter().map(|p| {
+                sp(
+                    "pub",
+                    vec![
+                        it.ver(&p.version).to_string(),
+                        p.user_id.to_string(),
+                        day(p.when).to_string(),
+                    ],
+                )
+            }));
+            sp("p", v)
+        })
+        .collect();
+    let unpublished: Vec<String> = up
+        .imports
+        .unpublished
+        .iter()
+        .map(|(k, l)| {
+            let mut v = vec![names(k)];
+            v.extend(l.iter().map(|u| {
+                sp(
+                    "u",
+                    vec![it.ver(&u.version).to_string(), it.ver(&u.audited_as).to_string()],
+                )
+            }));
+            sp("p", v)
+        })
+        .collect();
+    sp(
+        "updates",
+        vec![
+            sp("audits", audits),
+            sp("exemptions", exemptions),
+            sp("imports", imp_audits),
+            sp("publisher", publisher),
+            sp("unpublished", unpublished),
+        ],
+    )
+}
+
+fn panic_message(p: &Box<dyn std::any::Any + Send>) -> String {
+    if let Some(s) = p.downcast_ref::<String>() {
+        s.clone()
+    } else if let Some(s) = p.downcast_ref::<&str>() {
+        (*s).to_owned()
+    } else if let Some(crate::ExitPanic(code)) = p.downcast_ref::<crate::ExitPanic>() {
+        format!("ExitPanic({code})")
+    } else {
+        "<non-string panic>".to_owned()
+    }
+}
+
+fn run_case(case: &Value) -> Value {
+    let kind = case["kind"].as_str().unwrap_or("resolve");
+    let r = catch_unwind(AssertUnwindSafe(|| match kind {
+        "resolve" => run_resolve(case),
+        other => json!({"status": "harness_error", "error": format!("unknown kind {other}")}),
+    }));
+    let mut v = match r {
+        Ok(v) => v,
+        Err(p) => json!({"status": "panic", "panic": panic_message(&p), "outer": true}),
+    };
+    v["id"] = case["id"].clone();
+    v["kind"] = json!(kind);
+    v
+}
+
+#[test]
+fn verif_run() {
+    use std::io::{BufRead, Write};
+    let Ok(cases_path) = std::env::var("VERIF_CASES") else {
+        return;
+    };
+    let out_path = std::env::var("VERIF_OUT").expect("VERIF_OUT");
+    // Silence panic messages of expected panics (they are reported as values).
+    std::panic::set_hook(Box::new(|_| {}));
+    let rt = tokio::runtime::Runtime::new().unwrap();
+    let _enter = rt.enter();
+    let input = std::io::BufReader::new(std::fs::File::open(cases_path).unwrap());
+    let mut out = std::io::BufWriter::new(std::fs::File::create(out_path).unwrap());
+    for line in input.lines() {
+        let line = line.unwrap();
+        if line.trim().is_empty() {
+            continue;
+        }
+        let case: Value = serde_json::from_str(&line).expect("harness: case json");
+        let obs = run_case(&case);
+        writeln!(out, "{}", serde_json::to_string(&obs).unwrap()).unwrap();
+    }
+    out.flush().unwrap();
+    let _ = BTreeMap::<u8, u8>::new();
+    let _: Option<SortedMap<u8, ConfigFile>> = None;
+}
